@@ -163,5 +163,49 @@ def run(res):
              "mirror predicate; the same histories are evaluated by Model/DMap.v inside Coq" % (TTL, dmaplib.MARGIN))
 
 
+    if getattr(res, "harness_error", None):
+        return
+    # an expired, not yet evicted copy on the partition owner that is the NEWEST version, next to older copies without a
+    # deadline on a previous owner or a backup owner (a hand-over that has not finished, a backup that missed the last write):
+    # the key must not come back with the older value (copy layouts of the C06 harness)
+    import c06
+    import qlib
+    scs = []
+    for j, rr in enumerate((False, True)):
+        gets = [{"copies": list(l), "down": [], "expired": [0]} for l in ([3, 1, 0, 0], [3, 2, 1, 0], [2, 0, 1, 1], [3, 0, 0, 2], [2, 1, 1, 1])]
+        scs.append({"id": 7000 + j, "rr": rr, "rq": 1, "gets": gets})
+    results = qlib.run_harness("lww", [qlib.strip(s_) for s_ in scs], jobs=2)
+    n = 0
+    for s_ in scs:
+        ob = results[s_["id"]]
+        for i, g in enumerate(s_["gets"]):
+            if i >= len(ob.get("gets", [])):
+                break
+            n += 1
+            m = c06.check_get(s_, g, ob["gets"][i])
+            if m:
+                res.violation({"kind": "impl-violates-property", "part": "expired-newest", "scenario": dict(qlib.strip(s_), gets=[g]),
+                               "impl_trace": ob["gets"][i], "predicate": {"name": "an expired newest copy hides older copies", "verdict": m}, "seed": res.seed})
+                break
+    res.coverage["expired_newest_copy_layouts"] = n
+
+
 def replay(res, path):
+    import json as _json
+    obj = _json.load(open(path))
+    if obj.get("part") == "expired-newest":
+        import c06
+        import qlib
+        ok, out = vlib.harness_build()
+        if not ok:
+            raise vlib.CheckError(out)
+        sc = dict(obj["scenario"], id=0)
+        ob = qlib.run_harness("lww", [sc], jobs=1)[0]
+        for g, o in zip(sc["gets"], ob.get("gets", [])):
+            m = c06.check_get(sc, g, o)
+            if m:
+                print(m)
+                print("VIOLATION property=%s replay=%s" % (res.pid, path))
+                return 1
+        return 0
     return dmapcheck.replay(res, path, dmaplib.judge_seq)
